@@ -44,10 +44,12 @@ FILES = ["insights/core/filters.py", "insights/cleaner/filters.py", "insights/co
 
 
 # ------------------------------------------------------------------ O1: registration / look-up interleavings
-def build_graph():
+def build_graph(blocks=False):
     class S(SF.SpecSet):
         r = SF.RegistryPoint(filterable=True)
         plain = SF.RegistryPoint(filterable=False)
+        if blocks:
+            q = SF.RegistryPoint(filterable=True)
 
     def mk(name):
         def impl(broker):
@@ -70,7 +72,18 @@ def build_graph():
         return p
     Cf.__name__ = Cf.__qualname__ = "Cf"
     Cc = combiner(Pc)(Cf)
-    return {"R": S.r, "I1": I1.r, "I2": I2.r, "P": Pc, "C": Cc, "plain": S.plain}
+    g = {"R": S.r, "I1": I1.r, "I2": I2.r, "P": Pc, "C": Cc, "plain": S.plain, "blocks": blocks}
+    if blocks:
+        # implementations assembled from the factory's unnamed building blocks (all simple_file objects carry one and the same name),
+        # directly and below another wrapper: a provider is created for the block, so the block's look-up is what decides its content
+        b = [SF.simple_file("/c07/f%d" % i) for i in range(4)]
+        inner = SF.first_of([b[2], b[3]])
+
+        class I3(S):
+            r = SF.first_of([b[0], b[1]])
+            q = SF.head(inner)
+        g.update({"Q": S.q, "I3r": I3.r, "I3q": I3.q, "B1": b[0], "B2": b[1], "B3": b[2], "B4": b[3], "H": inner})
+    return g
 
 
 TARGETS = ["R", "I1", "P", "C"]
@@ -79,10 +92,19 @@ PATS = ["f1", "f2", "f3"]
 BUDGETS = [1, 2, 10000]
 
 
+B_TARGETS = ["R", "Q", "I3r", "P"]
+B_LOOKUPS = ["B1", "B3", "B4", "I3q", "I1", "B2"]
+Q_SIDE = ("Q", "I3q", "H", "B3", "B4")
+
+
 def applies(target, lookup):
     """does a filter registered on `target` belong to the effective set of `lookup` (statement's meaning)?"""
     if target in ("R", "P", "C"):
-        return True                      # on the spec, or through a parser / combiner depending on it: every implementation
+        return lookup not in Q_SIDE      # on the spec, or through a parser / combiner depending on it: every implementation of it
+    if target == "Q":
+        return lookup in Q_SIDE
+    if target == "I3r":
+        return lookup in ("I3r", "B1", "B2")     # on one implementation: that implementation and the blocks it is built from
     return target == lookup              # on one implementation only
 
 
@@ -123,7 +145,7 @@ def run_history(g, ops):
                     exp.setdefault(p, set()).add(b)
             # "no matter in which order registrations and look-ups happened": the same registrations made on a fresh copy of the
             # component graph, with no look-up, load or collection in between, must give the same answer
-            g2 = build_graph()
+            g2 = build_graph(g["blocks"])
             for (rt, p, b) in reg:
                 F.add_filter(g2[rt], p, b)
             fresh = F.get_filters(g2[t], wm)
@@ -155,10 +177,12 @@ def judge_history(res):
     return bad
 
 
-def make_history(k):
+def make_history(k, blocks=False):
+    TARGETS, LOOKUPS = (B_TARGETS, B_LOOKUPS) if blocks else (globals()["TARGETS"], globals()["LOOKUPS"])
+
     def fn(en):
         with REG:
-            g = build_graph()
+            g = build_graph(blocks)
             n = 1 + en.choice("n", k)
             ops = []
             for i in range(n):
@@ -172,7 +196,7 @@ def make_history(k):
                 else:
                     ops.append(("get", LOOKUPS[en.choice("l%d" % i, len(LOOKUPS))], en.flag("wm%d" % i)))
             ops.append(("get", LOOKUPS[en.choice("final", len(LOOKUPS))], True))
-            case = lambda mv: {"kind": "history", "ops": [list(o) for o in ops]}  # noqa
+            case = lambda mv: {"kind": "history", "ops": [list(o) for o in ops], "blocks": blocks}  # noqa
             en.note_sample(case)
             res = run_history(g, ops)
             bad = judge_history(res)
@@ -527,6 +551,11 @@ def obligations(tier):
                    bounds={"history length": "<= %d operations + a final look-up" % (4 if thorough else 3), "targets": TARGETS, "look-ups": LOOKUPS, "patterns": PATS, "budgets": BUDGETS},
                    stubs=["host collection: the provider's content is preset instead of running the grep pre-filter as a subprocess"],
                    outside=["filters.yaml loading (yaml is C code)"], encoded=enc[:2] + [SF.ContentProvider._clean_content, SF.FileProvider.__init__], budget_s=900 if thorough else 300, replay="history", check_sample=True),
+        Obligation("O1b-building-blocks", make_history(3 if thorough else 2, True), ["effective-set"],
+                   desc="the same histories on a graph whose implementations are assembled from the factory's unnamed building blocks: first_of([simple_file, simple_file]) implementing one spec and head(first_of([simple_file, simple_file])) implementing another; look-ups on the blocks (the datasources providers are created for) return the filters of the spec their implementation belongs to, and nothing of the other spec",
+                   bounds={"history length": "<= %d operations + a final look-up" % (3 if thorough else 2), "targets": B_TARGETS, "look-ups": B_LOOKUPS, "patterns": PATS, "budgets": BUDGETS},
+                   stubs=["host collection: the provider's content is preset instead of running the grep pre-filter as a subprocess"],
+                   encoded=enc[:2] + [SF.first_of.__init__, SF.head.__init__], budget_s=900 if thorough else 300, replay="history", check_sample=True),
         Obligation("O2-kept-lines", make_kept(5 if thorough else 4, 3 if thorough else 2), ["kept-lines"],
                    desc="AllowFilter.filter_content, Cleaner.clean_content(allowlist) and apply_filters on lines with a symbolic containment matrix and symbolic budgets",
                    bounds={"lines": 5 if thorough else 4, "filters": 3 if thorough else 2, "containment": "every boolean matrix", "budgets": "symbolic ints in [1,3]"},
@@ -560,7 +589,7 @@ class NLine(str):
 def _native(case):
     kind = case["kind"]
     if kind == "history":
-        g = build_graph()
+        g = build_graph(case.get("blocks", False))
         ops = [tuple(o) for o in case["ops"]]
         return judge_history(run_history(g, ops))
     if kind == "kept":
